@@ -105,7 +105,7 @@ Proof.
       rewrite Forall_forall in *. intros x Hx. apply b_put_In in Hx. destruct Hx as [->|Hx]; [exact L2|apply Hall; exact Hx].
 Qed.
 
-Lemma filter_sorted (f : str * bytes -> bool) (b : bucket) : ssorted b -> ssorted (filter f b).
+Lemma filter_sorted {A} (f : str * A -> bool) (b : list (str * A)) : ssorted b -> ssorted (filter f b).
 Proof.
   induction 1 as [|kv b Hall Hs IH]; cbn; [constructor|].
   destruct (f kv); [|exact IH]. constructor; [|exact IH].
